@@ -17,7 +17,7 @@ RULE = (
     "explored path-exhaustively as a tree (extend a tape only when a run exhausted it) up to the tier's depth. Allowed: explicit NotImplementedError "
     "(refusal) or equal observations (outcome kind, repr of value / exception type, full external-call trace). Main shards exclude by construction "
     "the constructs of recorded findings (known_findings.txt); one probe shard group per recorded finding enables exactly that construct and accepts "
-    "only that finding's signature. Corpus leg: standard-library functions whose source lies in the supported statement subset go through the same pipeline and must be refused explicitly or yield source that compiles. Non-trivial = accepted program with >= 1 loop and >= 1 branch and at least one completed path. Distinct = hash of the source."
+    "only that finding's signature. Corpus leg: standard-library functions whose source lies in the supported statement subset go through the same pipeline and must be refused explicitly or yield source that compiles. Further legs: the same grammar driven coverage-guided by libFuzzer (atheris) through Hypothesis' fuzz_one_input; fixed template families (loops with 3-13 exits, 3-13-arm elif chains, 3-13-operand and/or chains, 3-7-deep while nests, while-True idioms) and a slice (quick) / all (thorough) of an exhaustive family of 3768 loops whose body is an if/elif/else chain over every combination of pass / continue / break / return / statement arms with every kind of tail. Sequence leg: drawn sequences of 2-4 functions go through ONE SCFG2ASTTransformer object, each generated twice from its graph, and must compile and behave like their originals (or be refused). Non-trivial = accepted program with >= 1 loop and >= 1 branch and at least one completed path. Distinct = hash of the source."
 )
 ASSUME = [
     "arguments come from a finite pool; path exhaustiveness holds for tape-driven decisions up to the depth bound; programs that hit the call/line budget are inconclusive (counted, never a violation)",
